@@ -577,24 +577,104 @@ func (r *Run) blockUntil(label string, cond func() bool, act func()) {
 
 type accessInfo struct {
 	wG, wC int
+	wPos   string
 	rd     map[int]int
+	rPos   map[int]string
 }
 
 func (r *Run) raceKey(p []pathElem) string {
 	k := ""
 	for _, e := range p {
 		if e.idx == nil {
-			k += fmt.Sprintf(".%d", e.field)
+			k += fmt.Sprintf(".%d;", e.field)
 		} else if e.idx.IsConst() {
-			k += fmt.Sprintf("[%d]", e.idx.c)
+			k += fmt.Sprintf("[%d];", e.idx.c)
 		} else {
-			k += "[*]"
-			break
+			break // unknown element: conflicts with every element of this array
 		}
 	}
 	return k
 }
 
-func (r *Run) raceRead(s *Slot) { /* slot-level hooks are refined in racePath */ }
-
+func (r *Run) raceRead(s *Slot)  {}
 func (r *Run) raceWrite(s *Slot) {}
+
+func prefixRel(a, b string) bool {
+	if len(a) <= len(b) {
+		return b[:len(a)] == a
+	}
+	return a[:len(b)] == b
+}
+
+// raceAccess: happens-before check of one memory access (FastTrack style, per slot and
+// access path; a path conflicts with every path it is a prefix of). Accesses made by
+// harness code (models, assertions after verifQuiesce) are not checked.
+func (r *Run) raceAccess(s *Slot, path []pathElem, write bool) {
+	if !r.raceDetect || s == nil || s.noRace {
+		return
+	}
+	g := r.sched.cur
+	if g == nil || g.fr == nil || r.eng.isHarnessFn(g.fr.fn) {
+		return
+	}
+	key := r.raceKey(path)
+	if s.acc == nil {
+		s.acc = map[string]*accessInfo{}
+		// creation counts as a write by the creator
+		s.acc[""] = &accessInfo{wG: s.wG, wC: s.wC, wPos: "allocation"}
+	}
+	hb := func(og, oc int) bool { return og == g.id || g.vc[og] >= oc }
+	for k, ai := range s.acc {
+		if !prefixRel(k, key) {
+			continue
+		}
+		if ai.wC > 0 && !hb(ai.wG, ai.wC) {
+			r.reportRace(s, key, write, ai.wG, true, ai.wPos)
+			return
+		}
+		if write {
+			for rg, rc := range ai.rd {
+				if !hb(rg, rc) {
+					r.reportRace(s, key, write, rg, false, ai.rPos[rg])
+					return
+				}
+			}
+		}
+	}
+	ai := s.acc[key]
+	if ai == nil {
+		ai = &accessInfo{}
+		s.acc[key] = ai
+	}
+	if write {
+		ai.wG, ai.wC, ai.wPos = g.id, g.vc[g.id], r.where()
+		ai.rd, ai.rPos = nil, nil
+	} else {
+		if ai.rd == nil {
+			ai.rd, ai.rPos = map[int]int{}, map[int]string{}
+		}
+		ai.rd[g.id] = g.vc[g.id]
+		ai.rPos[g.id] = r.where()
+	}
+}
+
+func (r *Run) reportRace(s *Slot, key string, write bool, og int, otherWrite bool, opos string) {
+	kind := map[bool]string{true: "write", false: "read"}
+	site := firstPos(r.where()) + " vs " + firstPos(opos)
+	id := "data-race"
+	if r.raceSeen == nil {
+		r.raceSeen = map[string]bool{}
+	}
+	if r.raceSeen[site] {
+		return
+	}
+	r.raceSeen[site] = true
+	msg := fmt.Sprintf("data race (no happens-before): %s of %s%s by g%d at %s  ||  %s by g%d at %s", kind[write], s.name, key, r.sched.cur.id, r.where(), kind[otherWrite], og, opos)
+	m := r.model
+	if m == nil {
+		if st, mm := r.solve(); st == "sat" {
+			m = mm
+		}
+	}
+	r.violationM(id, "race", msg, m, "")
+}
